@@ -1,6 +1,7 @@
 import QP.Model.PT
 import QP.Proofs.PTTop2W
 import QP.Proofs.PTCompileWT
+import QP.Proofs.PTArithAtomicW
 /-! Durations and windows for ALL composite constructors over the proved atoms (no positivity assumption, no
 PF-11 exclusion). -/
 namespace QP.PT
@@ -23,10 +24,10 @@ theorem atomOKWT_of_buildOK {pt : PT} (hb : BuildOK pt) : AtomOKWT pt := by
     unfold QP.C05.leafItems
     exact relW_single_leaf wF ms P.dur (by rw [b1, a1, hdur]) P.chans hne
 
-/-- every composite constructor over the proved atoms: sequence, repetition, iteration, mapping, time reversal,
+/-- every composite constructor over the proved atoms (incl. `ArithmeticAtomicPT` of proved atoms): sequence, repetition, iteration, mapping, time reversal,
 parallel channels, arithmetic with a scalar -/
 inductive Stage3R : PT → Prop
-  | atom {pt} : AtomTree pt → Stage3R pt
+  | atom {pt} : AtomTreeW pt → Stage3R pt
   | seq {id subs meas cons} : (∀ p ∈ subs, Stage3R p) → Stage3R (.seq id subs meas cons)
   | rep {id body count meas cons} : Stage3R body → Stage3R (.rep id body count meas cons)
   | forLoop {id body idx start stop step meas cons} : Stage3R body →
@@ -39,13 +40,16 @@ inductive Stage3R : PT → Prop
 theorem Stage3R.basic {pt : PT} (h : Stage3R pt) : BasicWT pt := by
   induction h with
   | atom ha =>
-    have hb := atomOKWT_of_buildOK ha.buildOK
+    have hb := atomOKWT_of_buildOKW ha.buildOKW
     cases ha with
-    | const => exact BasicWT.const hb
-    | func => exact BasicWT.func hb
-    | table => exact BasicWT.table hb
-    | point => exact BasicWT.point hb
-    | atomicMulti _ => exact BasicWT.atomicMulti hb
+    | base ha' =>
+      cases ha' with
+      | const => exact BasicWT.const hb
+      | func => exact BasicWT.func hb
+      | table => exact BasicWT.table hb
+      | point => exact BasicWT.point hb
+      | atomicMulti _ => exact BasicWT.atomicMulti hb
+    | arithAtomic _ _ => exact BasicWT.arithAtomic hb
   | seq _ ih => exact BasicWT.seq ih
   | rep _ ih => exact BasicWT.rep ih
   | forLoop _ ih => exact BasicWT.forLoop ih
@@ -56,7 +60,7 @@ theorem Stage3R.basic {pt : PT} (h : Stage3R pt) : BasicWT pt := by
 
 theorem Stage2R.stage3R {pt : PT} (h : Stage2R pt) : Stage3R pt := by
   induction h with
-  | atom ha => exact Stage3R.atom ha
+  | atom ha => exact Stage3R.atom (AtomTreeW.base ha)
   | seq _ ih => exact Stage3R.seq ih
   | rep _ ih => exact Stage3R.rep ih
   | forLoop _ ih => exact Stage3R.forLoop ih
